@@ -96,6 +96,7 @@ def run(e: Engine, rep: Report):
     n14(e, rep)
     n15(e, rep)
     n16(e, rep)
+    n17(e, rep)
     rep.floor('N1', 9, 'relay implementations / set sites')
     rep.floor('N2', 12, 'client command sites')
 
@@ -2091,6 +2092,66 @@ def n15(e: Engine, rep: Report, rule: str = 'N15'):
                'no bytes-only / str-only method on reply.command',
                reason='nothing to check (producers: %d)' % len(producers),
                nontrivial=False)
+
+
+# -------------------------------------------------------------------- N17
+def n17(e: Engine, rep: Report, rule: str = 'N17'):
+    """`No usable DNS records` is a permanent verdict (ValueError -> 550).
+    MxRecord.get may reach it only with records it may trust: those of a
+    lookup that this call made and that came back, or cached ones that have
+    not expired.  A call that waited for somebody else's lookup (which may
+    have failed: SERVFAIL, timeout) and then finds no records has learnt
+    nothing - bouncing the message then turns a resolver failure into a
+    permanent one."""
+    rep.rule(rule, 'MxRecord.get raises its "no records" ValueError only '
+             'after its own _resolve() returned on this path, or with '
+             'records that are not expired')
+    ctx = e.method_ctx('slimta.relay.smtp.mx.MxRecord', 'get')
+    g = e.build(ctx, raises=lambda b, n, r: {'builtins.Exception'}
+                if n.kind == 'call' and (e.call_name(n) or '').startswith(
+                    '_resolve') else set(),
+                inline=e.inline_same_self(deny=['_resolve', '_resolve_mx',
+                                                '_resolve_a']), max_depth=3)
+    where = ctx.func.qname
+    rep.functions.add(where)
+    raises = [n for n in g.of_kind('stmt') if isinstance(n.ast, ast.Raise)
+              and n.ast.exc is not None and
+              'ValueError' in ast.unparse(n.ast.exc)]
+    # (the exception object may be built first: raise ValueError(msg))
+    if not raises:
+        rep.error('anchor vanished: the "no records" ValueError of '
+                  'MxRecord.get')
+        return
+    from ..facts import atoms_of_test
+
+    def step(n, label, st):
+        if st:
+            return True
+        if n.kind == 'call' and (e.call_name(n) or '').startswith(
+                '_resolve') and not isinstance(label, tuple):
+            return True
+        if n.kind == 'test' and label in ('T', 'F'):
+            for pol, k in atoms_of_test(n.ast, label == 'T', n.frame):
+                # the edge on which the cache has NOT expired
+                if not pol and k == 'self.expired':
+                    return True
+                if not pol and 'self._expiration' in k and '<=' in k:
+                    return True
+        return False
+    for r in raises:
+        rep.evaluations += 1
+        w = dataflow.typestate_witness(g, False, step,
+                                       lambda n, st: n is r and not st)
+        rep.check(w is None, rule, where,
+                  '"no records" verdict rests on a lookup of this call or on '
+                  'unexpired records',
+                  'MxRecord.get can raise its permanent "no usable DNS '
+                  'records" error on a path where the record was expired and '
+                  'this call made no lookup that returned (it waited for, or '
+                  'skipped, the lookup): a resolver failure somewhere else '
+                  'bounces this message', loc=r.loc(),
+                  reason='_resolve() returned, or not expired, on every path',
+                  witness=dataflow.render_path(w, 12) if w else None)
 
 
 # -------------------------------------------------------------------- N16
